@@ -10,15 +10,18 @@ abbrev Str := List Nat
 def inRanges (r : List (Nat × Nat)) (c : Nat) : Bool :=
   r.any fun (lo, hi) => lo ≤ c && c ≤ hi
 
-/-- Binary search variant for the driver (same answer on sorted disjoint ranges). -/
-partial def inRangesArr (r : Array (Nat × Nat)) (c : Nat) : Bool :=
-  let rec go (lo hi : Nat) : Bool :=
-    if lo ≥ hi then false
-    else
-      let mid := (lo + hi) / 2
-      let (a, b) := r[mid]!
-      if c < a then go lo mid else if c > b then go (mid + 1) hi else true
-  go 0 r.size
+/-- Binary search variant for the driver (same answer on sorted disjoint ranges); fuel = table size. -/
+def inRangesArr (r : Array (Nat × Nat)) (c : Nat) : Bool :=
+  let rec go (fuel lo hi : Nat) : Bool :=
+    match fuel with
+    | 0 => false
+    | fuel + 1 =>
+      if lo ≥ hi then false
+      else
+        let mid := (lo + hi) / 2
+        let (a, b) := r[mid]!
+        if c < a then go fuel lo mid else if c > b then go fuel (mid + 1) hi else true
+  go (r.size + 1) 0 r.size
 
 /-- Python slice `s[a:b]` with `a b : Int` (negative = from the end, clamped). -/
 def sliceI (s : List α) (a b : Int) : List α :=
